@@ -79,6 +79,18 @@ func c09Exec(op string) string {
 	}
 	mv := mxj.Map(m)
 	before := deepCopy(m)
+	// LeafPaths / LeafValues are projections of LeafNodes for the SAME option list, whatever its
+	// length (the option is honoured only when exactly one flag is given)
+	extraNote := ""
+	for _, flags := range [][]bool{{noattr, false}, {noattr, true}, {true, false, true}} {
+		ln := mv.LeafNodes(flags...)
+		lp := mv.LeafPaths(flags...)
+		lv := mv.LeafValues(flags...)
+		if len(lp) != len(ln) || len(lv) != len(ln) {
+			extraNote = fmt.Sprintf("FLAGS with option flags %v LeafNodes yields %d leaves, LeafPaths %d, LeafValues %d", flags, len(ln), len(lp), len(lv))
+			break
+		}
+	}
 	var ls []mxj.LeafNode
 	if noattr {
 		ls = mv.LeafNodes(true)
@@ -123,6 +135,9 @@ func c09Exec(op string) string {
 	}
 	if !deepEq(before, m) {
 		notes = append(notes, "receiver-modified")
+	}
+	if extraNote != "" {
+		notes = append(notes, "projection:"+strings.ReplaceAll(extraNote, ",", ";"))
 	}
 	res := "resolves"
 	if unres != "" {
